@@ -64,6 +64,7 @@ type Prog struct {
 	declined    map[*ssa.Function]bool         // helpers some context could not inline
 	cflow       *chanFlow
 	constGlob   map[string]map[int64]int64 // package-level tables that are never written after initialisation
+	constStruct map[string]map[string]int64 // package-level structs of constants: variable -> field -> value
 	nnGlob      map[string]bool            // package-level variables that always hold a non-nil value
 	unresolved  []string                   // anchors that failed to resolve
 	modCache    *modInfo
@@ -311,6 +312,8 @@ func (p *Prog) constGlobals() map[string]map[int64]int64 {
 		return p.constGlob
 	}
 	out := map[string]map[int64]int64{}
+	structs := map[string]map[string]int64{}
+	nonConst := map[string]bool{}
 	bad := map[string]bool{}
 	initFn := p.SSA.Func("init")
 	rootGlobal := func(v ssa.Value) *ssa.Global {
@@ -340,6 +343,47 @@ func (p *Prog) constGlobals() map[string]map[int64]int64 {
 					// whole-array initialisation from a literal built in a temporary
 					if ld, isL := x.Val.(*ssa.UnOp); isInit && isL && ld.Op == token.MUL && x.Addr == ssa.Value(g) {
 						if tmp, isA := ld.X.(*ssa.Alloc); isA {
+							if _, isStruct := tmp.Type().Underlying().(*types.Pointer).Elem().Underlying().(*types.Struct); isStruct {
+								// `var spec = T{code: 3, optional: true}`: built in a
+								// temporary, field by field, from constants
+								ftab := map[string]int64{}
+								okS := true
+								for _, r := range *tmp.Referrers() {
+									switch u := r.(type) {
+									case *ssa.FieldAddr:
+										for _, rr := range *u.Referrers() {
+											st2, isS := rr.(*ssa.Store)
+											if !isS || st2.Addr != ssa.Value(u) {
+												okS = false
+												continue
+											}
+											cv, isCV := st2.Val.(*ssa.Const)
+											switch {
+											case isCV && cv.Value != nil && cv.Value.Kind() == constant.Bool:
+												ftab[structFieldName(u)] = b2i(constant.BoolVal(cv.Value))
+											case isCV && cv.Value != nil && intTypeInfo(cv.Type()).ok:
+												ftab[structFieldName(u)] = cv.Int64()
+											default:
+												// a field that is not a constant: unknown, the others stand
+												ftab[structFieldName(u)] = 0
+												nonConst[g.Name()+"."+structFieldName(u)] = true
+											}
+										}
+									case *ssa.UnOp, *ssa.DebugRef:
+									default:
+										okS = false
+									}
+								}
+								if okS {
+									if _, dup := structs[g.Name()]; dup {
+										bad[g.Name()] = true
+									}
+									structs[g.Name()] = ftab
+									break
+								}
+								bad[g.Name()] = true
+								break
+							}
 							tab := map[int64]int64{}
 							okT := true
 							for _, r := range *tmp.Referrers() {
@@ -373,6 +417,26 @@ func (p *Prog) constGlobals() map[string]map[int64]int64 {
 						break
 					}
 					cst, isC := x.Val.(*ssa.Const)
+					if fa, isFA := x.Addr.(*ssa.FieldAddr); isFA && isInit && isC && cst.Value != nil && fa.X == ssa.Value(g) {
+						// a package-level struct of constants: `var spec = T{code: 3, optional: true}`
+						var v int64
+						okV := true
+						switch {
+						case cst.Value.Kind() == constant.Bool:
+							v = b2i(constant.BoolVal(cst.Value))
+						case intTypeInfo(cst.Type()).ok:
+							v = cst.Int64()
+						default:
+							okV = false
+						}
+						if okV {
+							if structs[g.Name()] == nil {
+								structs[g.Name()] = map[string]int64{}
+							}
+							structs[g.Name()][structFieldName(fa)] = v
+							break
+						}
+					}
 					if !isInit || !isC || cst.Value == nil || !intTypeInfo(cst.Type()).ok {
 						bad[g.Name()] = true
 						break
@@ -403,6 +467,14 @@ func (p *Prog) constGlobals() map[string]map[int64]int64 {
 							continue
 						}
 						switch u := in.(type) {
+						case *ssa.FieldAddr:
+							for _, r := range *u.Referrers() {
+								if ld, isL := r.(*ssa.UnOp); !isL || ld.Op != token.MUL {
+									if st, isS := r.(*ssa.Store); !isS || !isInit || st.Addr != ssa.Value(u) {
+										bad[g.Name()] = true
+									}
+								}
+							}
 						case *ssa.IndexAddr:
 							for _, r := range *u.Referrers() {
 								if ld, isL := r.(*ssa.UnOp); !isL || ld.Op != token.MUL {
@@ -442,9 +514,40 @@ func (p *Prog) constGlobals() map[string]map[int64]int64 {
 	}
 	for n := range bad {
 		delete(out, n)
+		delete(structs, n)
+	}
+	for k := range nonConst {
+		g, f, _ := strings.Cut(k, ".")
+		if structs[g] != nil {
+			delete(structs[g], f)
+			structs[g]["\x00"+f] = 1 // mentioned, not constant
+		}
 	}
 	p.constGlob = out
+	p.constStruct = structs
 	return out
+}
+
+// constStructField: the constant a field of a package-level struct holds for
+// the whole run (initialised by the package initialiser from constants, the
+// variable never written, never address-taken); fields the initialiser does
+// not mention hold the zero value.
+func (p *Prog) constStructField(global, field string, typ types.Type) (int64, bool) {
+	p.constGlobals()
+	tab, ok := p.constStruct[global]
+	if !ok {
+		return 0, false
+	}
+	if v, has := tab[field]; has {
+		return v, true
+	}
+	if tab["\x00"+field] == 1 {
+		return 0, false
+	}
+	if typ != nil && (isBoolType(typ) || intTypeInfo(typ).ok) {
+		return 0, true
+	}
+	return 0, false
 }
 
 // nonNilGlobals: package-level variables initialised once, by the package
